@@ -185,12 +185,16 @@ def runfor_part(ck, tier):
                     err = None
                     wall = _time.time()
                     try:
+                        # the same budget expressed through each of the three arguments, and through all of them at once
+                        style = len(runs) % 4
+                        kw = [dict(minutes=budget_s / 60.0), dict(hours=budget_s / 3600.0), dict(days=budget_s / 86400.0),
+                              dict(minutes=budget_s / 180.0, hours=budget_s / 10800.0, days=budget_s / 259200.0)][style]
                         with contextlib.redirect_stdout(io.StringIO()):
-                            ch.run_for(minutes=budget_s / 60.0)
+                            ch.run_for(**kw)
                     except Exception as ex:
                         err = repr(ex)
                     ev.append({"ev": "End", "added": int(ch.chain_length - before)})
-                    ident = {"class": type(ch).__name__, "budget_s": budget_s, "step_costs_s": costs, "display_progress": display}
+                    ident = {"class": type(ch).__name__, "budget_s": budget_s, "run_for_arguments": kw, "step_costs_s": costs, "display_progress": display}
                     ck.case(("runfor", kind, b["budget"], tuple(b["costs"]), display))
                     if err:
                         ck.violation("run_for raised", {**ident, "error": err}, site="MarkovChain.run_for")
@@ -337,4 +341,6 @@ def run(tier):
     ck.tlc(r, "advance_arith")
     runfor_part(ck, tier)
     pool_part(ck, tier)
+    from harness import repotests
+    repotests.run_part(ck, "C15")          # traces of the repository's own MCMC tests, judged by TestRunTrace.tla
     return ck.finish()
